@@ -79,6 +79,33 @@ def gen(rng: random.Random, tier: str):
             ops.insert(pos, rng.choice([["Z", rng.randrange(n), rng.choice(seps)], ["P", rng.randrange(n), None, "none"]]))
         tags = ["random", "n=%d" % n, "sep=" + sep] + [t for op in ops for t in U.op_tags(op)]
         cases.append(mk_case(U.mk_data("node", n, names, sep, ops), tags))
+    # wide parents (9-12 children under one node), look-ups after every call, children replaced by other nodes of the
+    # same name (the child count stays the same), sorted, detached and re-attached
+    for i in range(40 if tier == "quick" else 400):
+        n = rng.randint(11, 14)
+        sep = rng.choice(U.SEPS)
+        base = ["r"] + ["k%d" % j for j in range(1, n)]
+        k = rng.randint(9, n - 2)
+        names = list(base)
+        for j in range(k + 1, n):            # the spare nodes carry names of children: same-name replacements
+            names[j] = names[rng.randint(1, k)]
+        ops = [["C", 0, list(range(1, k + 1)), "none"]]
+        for _ in range(rng.randint(2, 8)):
+            r = rng.random()
+            spare = rng.randint(k + 1, n - 1)
+            twin = names.index(names[spare])
+            if r < 0.5:
+                ops += [["P", twin, None, "none"], ["P", spare, 0, "none"]]
+            elif r < 0.65:
+                ops.append(["S", 0, [rng.randrange(5) for _ in range(n)], rng.random() < 0.5])
+            elif r < 0.8:
+                c = rng.randint(1, k)
+                ops += [["P", c, None, "none"], ["P", c, 0, "none"]]
+            else:
+                ops.append(["P", rng.randint(1, n - 1), rng.choice([None, 0, rng.randint(1, k)]), rng.choice(["none", "none", "post"])])
+        d = U.mk_data("node", n, names, sep, ops)
+        d["warm"] = 1
+        cases.append(mk_case(d, ("wide-parent", "n=%d" % n, "warm-lookups")))
     for d in U.drain_unhealthy():   # exploration met a store that is not a forest: let the tie and the oracle see it
         cases.append(mk_case(d, ("explore-unhealthy",)))
     return cases
@@ -98,6 +125,8 @@ def impl(case):
             parts.append("corrupt")
             return " ; ".join(parts)
         parts.append(o + " " + U.show_snap(U.snap(nodes)) + " | " + U.show_paths(nodes))
+        if d.get("warm"):
+            U.show_lookups(nodes)       # look-ups after every call, results discarded (what they leave behind must not matter)
     return " ; ".join(parts) + " ;; " + U.show_lookups(nodes)
 
 
@@ -122,6 +151,10 @@ def oracle(case):
         before = after
         if msgs:
             return msgs
+        if d.get("warm"):
+            msgs += [f"after op {i} {U.fmt_op(op)}: {m}" for m in U.lookup_errors(nodes)]
+            if msgs:
+                return msgs
         if not U.healthy(nodes):
             return [f"after op {i} {U.fmt_op(op)}: the links no longer form a forest"]
     return msgs + U.lookup_errors(nodes)
